@@ -138,6 +138,15 @@ def execute(sc, ctx):
     if mut:
         tgt = mut.get("path") or mut.get("src")
         ap = w.abspath(tgt)
+        # a change of an entry the history's patterns ignore is invisible by design (C12): not a subject here
+        ig = observe.make_ignore(hv.latest_patterns() or observe.default_patterns(), w.root)
+        for cand in [ap] + ([w.abspath(mut["dst"])] if mut.get("dst") else []):
+            q = cand
+            while q != w.root and q.startswith(w.root + os.sep):
+                if ig(q):
+                    ctx.probe("mutation_of_ignored_entry_na")
+                    return
+                q = os.path.dirname(q)
         fired = w.apply_env(mut)
         ctx.absorb_world(w)
         if fired:
